@@ -392,7 +392,7 @@ struct Node {
 pub fn run(tier: Tier) -> Report {
     let rep = Report::new("C09", tier);
     let alpha = alphabet();
-    rep.set_rule(&format!("breadth-first search over operation sequences on ids {{1,2,3}} x classes {{0,1}} ({} symbols: add_track, add, fetch, merge_owned (+ failing attribute merge), merge_external, merge_external_noblock+get, lookup, find_usable, clear, clear_wasted, shard_stats) with exact de-duplication of model states; every transition is executed on the real TrackStore (fresh store, prefix replayed) and compared with a BTreeMap model: return value, notifications, shard statistics and every shard's contents. Shard counts 1..5. Non-trivial state = at least one stored track.", alpha.len()));
+    rep.set_rule(&format!("breadth-first search over operation sequences on ids {{1,2,3}} x classes {{0,1}} ({} symbols: add_track, add, fetch, merge_owned (+ failing attribute merge), merge_external, merge_external_noblock+get, lookup, find_usable, clear, clear_wasted, shard_stats) with exact de-duplication of model states; every transition is executed on the real TrackStore (fresh store, prefix replayed) and compared with a BTreeMap model: return value, notifications, shard statistics and every shard's contents. Shard counts 1..5. Non-trivial state = at least one stored track. Schedule part: a non-blocking merge racing with one other operation; several merge results outstanding in one store (futures read in either order or dropped unread, then a blocking / owned merge); two threads looking up at the same time.", alpha.len()));
     rep.assume("runs inside the shuttle runtime under the deterministic default schedule; harness attributes/metric of store_h.rs");
     let depth = tier.pick(3usize, 5usize);
     let shard_counts: Vec<usize> = tier.pick(vec![1, 2, 3], vec![1, 2, 3, 4, 5]);
@@ -493,6 +493,7 @@ pub fn run(tier: Tier) -> Report {
     }
     rep.sample(json!({"shards":2,"ops":["AddTrack(1, true)","Add(3, 1)","MergeOwned(1, 3, 2)"]}));
     noblock_schedules(&rep, tier);
+    noblock_pairs(&rep, tier);
     concurrent_lookups(&rep, tier);
     rep
 }
@@ -577,6 +578,106 @@ struct Mid {
     dup_add_ok: Option<bool>,
     add_ok: Option<bool>,
     cleared: bool,
+}
+
+/// Several merge results outstanding in one store: every future reports the outcome of ITS merge, whatever the
+/// order in which the futures are read and whatever became of earlier futures. Plans: 0 = a merge into a stored
+/// track and one into a missing track, read in dispatch order; 1 = the same read in the opposite order; 2 = a
+/// future for a missing destination dropped unread, then a blocking merge into a stored track; 3 = a future for a
+/// stored destination dropped unread, then a blocking merge into a missing track; 4 = a dropped future (missing
+/// destination), then an owned merge 1 <- 3 that must succeed and remove the source.
+pub fn noblock_pairs(rep: &Report, tier: Tier) {
+    let mut total = 0u64;
+    for shards in [1usize, 2, 3] {
+        for plan in 0..5u8 {
+            for fine in [false, true] {
+                let cfg = if fine { sched::ExploreCfg { mode: sched::Mode::Fine, count_all_deviations: true, bound: tier.pick(1, 3), ..Default::default() } } else { sched::ExploreCfg { bound: tier.pick(2, 3), ..Default::default() } };
+                let outcomes: Mutex<BTreeMap<String, u64>> = Mutex::new(BTreeMap::new());
+                let stats = sched::explore(
+                    &cfg,
+                    move || {
+                        let mut store: Guarded<HStore> = Guarded::new(TrackStoreBuilder::new(shards).default_attributes(HAttrs::default()).metric(HMetric::default()).notifier(HNotifier).build());
+                        let mut model = Model::new();
+                        for op in [Op::AddTrack(1, true), Op::AddTrack(3, true)] {
+                            step(&mut store, &mut model, &op, shards).unwrap();
+                        }
+                        let (ext, _) = external_track(9);
+                        // (result reported for the merge into the stored track 1, result for the missing track 7, owned merge result)
+                        let mut seen: (Option<bool>, Option<bool>, Option<bool>) = (None, None, None);
+                        match plan {
+                            0 | 1 => {
+                                let fa = store.merge_external_noblock(1, ext.clone(), None, true).unwrap();
+                                let fb = store.merge_external_noblock(7, ext.clone(), None, true).unwrap();
+                                if plan == 0 {
+                                    seen.0 = Some(fa.get().is_ok());
+                                    seen.1 = Some(fb.get().is_ok());
+                                } else {
+                                    seen.1 = Some(fb.get().is_ok());
+                                    seen.0 = Some(fa.get().is_ok());
+                                }
+                            }
+                            2 => {
+                                drop(store.merge_external_noblock(7, ext.clone(), None, true).unwrap());
+                                seen.0 = Some(store.merge_external(1, &ext, None, true).is_ok());
+                            }
+                            3 => {
+                                drop(store.merge_external_noblock(1, ext.clone(), None, true).unwrap());
+                                seen.1 = Some(store.merge_external(7, &ext, None, true).is_ok());
+                            }
+                            _ => {
+                                drop(store.merge_external_noblock(7, ext.clone(), None, true).unwrap());
+                                seen.2 = Some(store.merge_owned(1, 3, None, true, true).is_ok());
+                            }
+                        }
+                        // a last blocking command on every shard orders the dump after everything queued before
+                        let _ = store.lookup(HLookup::Group(1));
+                        (seen, dump_store(&store, shards))
+                    },
+                    |x| match &x.outcome {
+                        sched::Outcome::Done((seen, after)) => {
+                            *outcomes.lock().unwrap().entry(format!("{seen:?}")).or_insert(0) += 1;
+                            let tracks: Vec<TrackDump> = after.iter().flat_map(|s| s.1.iter().cloned()).collect();
+                            let t1 = tracks.iter().find(|t| t.id == 1);
+                            let merged_from_9 = t1.map_or(0, |t| t.history.iter().filter(|h| **h == 9).count());
+                            let mut bad: Vec<(&str, String)> = vec![];
+                            if seen.0 == Some(false) {
+                                bad.push(("merge_noblock/result-of-another-merge", format!("the merge into stored track 1 was reported as failed; stored track 1 afterwards: {t1:?}")));
+                            }
+                            if seen.1 == Some(true) {
+                                bad.push(("merge_noblock/result-of-another-merge", "the merge into the missing track 7 was reported as a success".to_string()));
+                            }
+                            if plan != 4 && merged_from_9 != 1 {
+                                bad.push(("merge_noblock/merge-not-applied-once", format!("track 1 was merged from track 9 {merged_from_9} times: {t1:?}")));
+                            }
+                            if plan == 4 {
+                                let src_left = tracks.iter().any(|t| t.id == 3);
+                                let applied = t1.map_or(false, |t| t.history.contains(&3));
+                                if seen.2 != Some(true) || src_left || !applied {
+                                    bad.push(("merge_owned/result-of-another-merge", format!("merge_owned(1 <- 3, remove source) after an abandoned future: ok={:?}, source still stored: {src_left}, destination merged: {applied}", seen.2)));
+                                }
+                            }
+                            if tracks.iter().any(|t| t.id == 7) {
+                                bad.push(("merge_noblock/created-a-track", format!("{tracks:?}")));
+                            }
+                            for (key, what) in bad {
+                                rep.violation(Violation { key: key.into(), what, replay: json!({"engine":"B","part":"several merge results outstanding","shards":shards,"plan":plan,"granularity":if fine { "fine" } else { "macro" },"schedule":x.schedule_json()}) });
+                            }
+                        }
+                        sched::Outcome::Machinery(m) => machinery_error(m),
+                        other_outcome => rep.violation(Violation {
+                            key: "merge_noblock/panic-or-deadlock".into(),
+                            what: format!("{other_outcome:?}").chars().take(300).collect(),
+                            replay: json!({"engine":"B","part":"several merge results outstanding","shards":shards,"plan":plan,"granularity":if fine { "fine" } else { "macro" },"schedule":x.schedule_json()}),
+                        }),
+                    },
+                );
+                total += stats.executions;
+                rep.add(stats.executions, stats.decision_points, stats.executions, 0);
+                rep.extra(&format!("noblock_pairs_shards{shards}_plan{plan}{}", if fine { "_fine" } else { "" }), json!({"schedules":stats.executions,"max_decision_points":stats.max_points,"bound":stats.bound,"distinct_outcomes":outcomes.lock().unwrap().clone(),"truncated":stats.truncated}));
+            }
+        }
+    }
+    rep.extra("noblock_pairs_total", json!(total));
 }
 
 /// Engine B: "noblock; other op; get" under every schedule: what is observed must be explained by the
